@@ -401,9 +401,11 @@ class TypeChecker(walkers.dag.DagWalker):
                 x_ancestors = set(x.ancestors)
                 if all(t_ancestor not in x_ancestors for t_ancestor in t.ancestors):
                     return None
-            elif (t.is_int_type() or t.is_real_type()) and not (
-                x.is_int_type() or x.is_real_type()
+            elif (t.is_int_type() or t.is_real_type() or t.is_time_type()) and not (
+                x.is_int_type() or x.is_real_type() or x.is_time_type()
             ):
+                # numbers and timepoints can be compared with each other (as in
+                # walk_math_relation) and with nothing else, in either order
                 return None
         return BOOL
 
